@@ -288,5 +288,65 @@ DI = [(n, "!0 = " + t + "\n" + FOOT, fr) for n, t, fr in DI_RAW] + [
 ]
 
 
+def comdat_entries():
+    """entity kind x name spelling (plain, all-digit quoted, quoted with a space, unnamed) x comdat written explicitly / implicitly: the printer's short
+    form ` comdat` and the parser's reading of it must agree on what the implicit name is"""
+    out = []
+    for nm, ident, cd in (("plain", "@g", "$g"), ("digits", '@"42"', '$"42"'), ("leading-zero", '@"007"', '$"007"'), ("space", '@"a b"', '$"a b"'), ("unnamed", "@0", '$"0"')):
+        for spell in ("explicit", "implicit"):
+            c = "comdat(%s)" % cd if spell == "explicit" else "comdat"
+            if nm == "unnamed" and spell == "implicit":
+                continue        # covered above (comdat.implicit-unnamed-*)
+            out.append(("comdat.x.global.%s.%s" % (nm, spell), "%s = comdat any\n\n%s = global i32 0, %s\n" % (cd, ident, c), ["%s = global i32 0, comdat" % ident, "%s = comdat any" % cd]))
+            out.append(("comdat.x.define.%s.%s" % (nm, spell), "%s = comdat any\n\ndefine void %s() %s {\n\tret void\n}\n" % (cd, ident, c), ["define void %s() comdat" % ident]))
+            out.append(("comdat.x.declare.%s.%s" % (nm, spell), "%s = comdat any\n\ndeclare void %s() %s\n" % (cd, ident, c), ["declare void %s() comdat" % ident]))
+    return out
+
+
+def flag_cross_entries():
+    """every flag-carrying instruction kind x operand type shape (scalar, fixed vector, scalable vector) x flag set: each instruction has its own
+    translation function in package asm, and a flag lost on ONE kind for ONE shape is a silent change of meaning"""
+    out = []
+    fshapes = (("float", "float"), ("v4", "<4 x float>"), ("sv2", "<vscale x 2 x double>"))
+    ishapes = (("i32", "i32"), ("v4", "<4 x i32>"), ("sv2", "<vscale x 2 x i64>"))
+    def fn(ret, params, body):
+        return "define %s @f(%s) {\n\t%s\n\tret %s %%r\n}\n" % (ret, params, body, ret)
+    for fl in ("fast", "nnan arcp", "ninf nsz contract afn reassoc"):
+        for sn, t in fshapes:
+            for op in ("fadd", "fsub", "fmul", "fdiv", "frem"):
+                line = "%%r = %s %s %s %%a, %%b" % (op, fl, t)
+                out.append(("fmf.%s.%s.%s" % (op, sn, fl.replace(" ", "-")), fn(t, "%s %%a, %s %%b" % (t, t), line), [line]))
+            line = "%%r = fneg %s %s %%a" % (fl, t)
+            out.append(("fmf.fneg.%s.%s" % (sn, fl.replace(" ", "-")), fn(t, "%s %%a" % t, line), [line]))
+            line = "%%c = fcmp %s olt %s %%a, %%b" % (fl, t)
+            ct = "i1" if sn == "float" else t.replace("float", "i1").replace("double", "i1")
+            out.append(("fmf.fcmp.%s.%s" % (sn, fl.replace(" ", "-")), "define %s @f(%s %%a, %s %%b) {\n\t%s\n\tret %s %%c\n}\n" % (ct, t, t, line, ct), [line]))
+            line = "%%r = select %s i1 %%c, %s %%a, %s %%b" % (fl, t, t)
+            out.append(("fmf.select.%s.%s" % (sn, fl.replace(" ", "-")), fn(t, "i1 %%c, %s %%a, %s %%b" % (t, t), line), [line]))
+            line = "%%r = call %s %s @g(%s %%a)" % (fl, t, t)
+            out.append(("fmf.call.%s.%s" % (sn, fl.replace(" ", "-")), "declare %s @g(%s)\n\n" % (t, t) + fn(t, "%s %%a" % t, line), [line]))
+            line = "%%r = phi %s %s [ %%a, %%e ]" % (fl, t)
+            out.append(("fmf.phi.%s.%s" % (sn, fl.replace(" ", "-")), "define %s @f(%s %%a) {\ne:\n\tbr label %%n\n\nn:\n\t%s\n\tret %s %%r\n}\n" % (t, t, line, t), [line]))
+    for sn, t in ishapes:
+        for op in ("add", "sub", "mul", "shl"):
+            for fl in ("nuw", "nsw", "nuw nsw"):
+                line = "%%r = %s %s %s %%a, %%b" % (op, fl, t)
+                out.append(("ovf.%s.%s.%s" % (op, sn, fl.replace(" ", "-")), fn(t, "%s %%a, %s %%b" % (t, t), line), [line]))
+        for op in ("udiv", "sdiv", "lshr", "ashr"):
+            line = "%%r = %s exact %s %%a, %%b" % (op, t)
+            out.append(("exact.%s.%s" % (op, sn), fn(t, "%s %%a, %s %%b" % (t, t), line), [line]))
+    for sn, pt, it in (("scalar", "i32*", "i64"), ("v2", "<2 x i32*>", "<2 x i64>"), ("sv2", "<vscale x 2 x i32*>", "<vscale x 2 x i64>")):
+        line = "%%r = getelementptr inbounds i32, %s %%p, %s %%i" % (pt, it)
+        out.append(("inbounds.gep.%s" % sn, fn(pt, "%s %%p, %s %%i" % (pt, it), line), [line]))
+    # the same flags on constant expressions
+    for op in ("add", "sub", "mul", "shl"):
+        for fl in ("nuw", "nsw", "nuw nsw"):
+            out.append(("ovf.expr.%s.%s" % (op, fl.replace(" ", "-")), "@g = global i32 %s %s (i32 ptrtoint (i32* @g to i32), i32 1)\n" % (op, fl), ["%s %s (i32" % (op, fl)]))
+    for op in ("lshr", "ashr"):          # (udiv / sdiv constant expressions no longer exist in the grammar)
+        out.append(("exact.expr.%s" % op, "@g = global i32 %s exact (i32 ptrtoint (i32* @g to i32), i32 1)\n" % op, ["%s exact (i32" % op]))
+    out.append(("inbounds.expr.gep", "@a = global [4 x i32] zeroinitializer\n@g = global i32* getelementptr inbounds ([4 x i32], [4 x i32]* @a, i64 0, i64 1)\n", ["getelementptr inbounds ([4 x i32]"]))
+    return out
+
+
 def all_entries(rows):
-    return kw_entries(rows) + STRUCTURED + NAMED_NONSTRUCT + inst_entries() + DI
+    return kw_entries(rows) + STRUCTURED + NAMED_NONSTRUCT + inst_entries() + DI + comdat_entries() + flag_cross_entries()
